@@ -258,6 +258,99 @@ pub fn check_inproc(mode: Mode, c: &TableCase, st: &mut Stats) -> Result<(), Fai
     Ok(())
 }
 
+// ---- whatever registration accepted ---------------------------------------
+
+/// A clean table plus "shadow" endpoints: copies of existing (method, path)
+/// pairs with an arbitrary version range.  Whether each is accepted is left
+/// to dropshot (that decision is C02's and C05's business); C01 speaks about
+/// *any API that registration accepted*, so when dropshot accepts the whole
+/// set in both orders, dispatch must be order independent and no request may
+/// match two of the accepted endpoints.
+#[derive(Clone, Debug, Serialize, Deserialize)]
+pub struct ShadowCase {
+    pub base: TableCase,
+    pub shadows: Vec<(u16, u16)>,
+}
+
+pub fn shadow_case_strategy(probes: usize) -> impl Strategy<Value = ShadowCase> {
+    (table_case_strategy(3, probes, false), proptest::collection::vec(any::<(u16, u16)>(), 1..4)).prop_map(|(base, shadows)| ShadowCase { base, shadows })
+}
+
+pub fn check_accepted(c: &ShadowCase, st: &mut Stats) -> Result<(), Failure> {
+    let mut table = c.base.table.endpoints(MAX_ENDPOINTS);
+    if table.is_empty() {
+        return Ok(());
+    }
+    let n0 = table.len();
+    let ranges = all_ranges(&pool());
+    for (k, (ei, ri)) in c.shadows.iter().enumerate() {
+        let mut e = table[pick_idx(*ei, n0)].clone();
+        e.op = format!("shadow{}", k);
+        let start = pick_idx(*ri, ranges.len());
+        e.range = ranges[start].clone();
+        if ri & 1 == 1 {
+            // half of the time look for a range that the reference says shares no version with
+            // the endpoints already on this route, so that complete acceptance is common enough
+            for off in 0..ranges.len() {
+                let r = &ranges[(start + off) % ranges.len()];
+                if !table.iter().any(|x| x.method == e.method && x.segs == e.segs && x.range.overlaps(r)) {
+                    e.range = r.clone();
+                    break;
+                }
+            }
+        }
+        table.push(e);
+    }
+    let t_a = permute(&table, &c.base.perm_a);
+    let mut t_b = t_a.clone();
+    t_b.reverse();
+    st.count("sets");
+    let mut apis = vec![];
+    for t in [&t_a, &t_b] {
+        let mut api = dropshot::ApiDescription::new();
+        for e in t.iter() {
+            if !try_register(&mut api, e, &default_path_spec(e), None, &[]).accepted() {
+                st.count("sets_with_a_refusal");
+                return Ok(());
+            }
+        }
+        apis.push(api);
+    }
+    st.count("sets_fully_accepted");
+    let lb = into_lookup(apis.pop().unwrap());
+    let la = into_lookup(apis.pop().unwrap());
+    let text = || table.iter().map(|e| format!("{}:{} {} [{}]", e.op, e.method, e.template(), e.range.text())).collect::<Vec<_>>().join("; ");
+    for p in &c.base.probes {
+        let pr = interpret_probe(&table, p);
+        let v = Some(&pr.version);
+        let d = dispatch(&table, &pr.method, &pr.segs, v);
+        let oa = la(&pr.method, &pr.raw_path, v);
+        let ob = lb(&pr.method, &pr.raw_path, v);
+        st.eval();
+        if d.len() == 1 && d[0].0.op.starts_with("shadow") || table.iter().filter(|x| x.segs == d.first().map(|d| d.0.segs.clone()).unwrap_or_default() && d.len() == 1 && x.method == d[0].0.method).count() >= 2 {
+            st.count("probe_on_shadowed_route");
+            st.nontrivial(hash_of(&(text(), &pr.method, &pr.raw_path, pr.version.text())));
+        }
+        ensure!(
+            d.len() <= 1,
+            "request-matches-two-accepted-endpoints",
+            "{} {} @{} matches {:?}, all of which registration accepted (in both orders): [{}]; order A dispatches {:?}, order B {:?}",
+            pr.method,
+            pr.raw_path,
+            pr.version.text(),
+            d.iter().map(|(e, _)| e.op.clone()).collect::<Vec<_>>(),
+            text(),
+            oa,
+            ob
+        );
+        ensure!(oa == ob, "order-dependence", "{} {} @{} on [{}]: order A gives {:?}, the reverse order gives {:?}", pr.method, pr.raw_path, pr.version.text(), text(), oa, ob);
+        if let (Some((e, _)), LookupOut::Found { op, .. }) = (d.first(), &oa) {
+            ensure!(op == &e.op, "wrong-endpoint", "{} {} @{} on [{}]: reference says {}, router dispatched to {}", pr.method, pr.raw_path, pr.version.text(), text(), e.op, op);
+        }
+    }
+    Ok(())
+}
+
 // ---- live ---------------------------------------------------------------
 
 pub fn check_live(mode: Mode, rt: &tokio::runtime::Runtime, c: &TableCase, st: &mut Stats) -> Result<(), Failure> {
@@ -381,7 +474,7 @@ pub fn check_live(mode: Mode, rt: &tokio::runtime::Runtime, c: &TableCase, st: &
 
 pub fn run(ctx: &mut Ctx, mode: Mode) {
     let (id, rule) = match mode {
-        Mode::C01 => ("C01", "route tables built constructively as trees (literal/variable/wildcard edges, 0-3 methods per node each with pairwise disjoint version ranges), registered in two shuffled orders; probes instantiate a template with adversarial segments and optionally mutate it; oracle = flat-list reference matcher. non-trivial = hit on a table of >=3 endpoints that binds a variable/wildcard, or lands on a node with >=2 same-method endpoints at different versions, or on a node with a variable/wildcard child; distinct by (table, probe)"),
+        Mode::C01 => ("C01", "route tables built constructively as trees (literal/variable/wildcard edges, 0-3 methods per node each with pairwise disjoint version ranges), registered in two shuffled orders; probes instantiate a template with adversarial segments and optionally mutate it; oracle = flat-list reference matcher. non-trivial = hit on a table of >=3 endpoints that binds a variable/wildcard, or lands on a node with >=2 same-method endpoints at different versions, or on a node with a variable/wildcard child; distinct by (table, probe). Phase accepted_sets: the same tables plus 1-3 copies of existing (method, path) pairs with arbitrary version ranges; sets that dropshot accepts completely in an order and in its reverse must dispatch identically in both and no probe may match two accepted endpoints (non-trivial = probe landing on a route that has a second endpoint)"),
         Mode::C04 => ("C04", "same tables as C01, probes biased to misses; oracle = served_methods(path, version) from the flat-list reference matcher. non-trivial = 405 whose node also carries a method not served at this version, or 404 whose path exists at another version (in-process); live: every 405 with its Allow bytes; distinct by (table, probe)"),
     };
     let _ = id;
@@ -395,6 +488,10 @@ pub fn run(ctx: &mut Ctx, mode: Mode) {
     ctx.require_frac("inproc", "tables_with_wildcard", "tables", 0.05);
     if mode == Mode::C01 {
         ctx.require_frac("inproc", "hit_binds_wildcard", "probes", 0.02);
+        let n = ctx.tier.pick(15000, 150000);
+        ctx.phase("accepted_sets", n, shadow_case_strategy(probes), check_accepted);
+        ctx.require_frac("accepted_sets", "sets_fully_accepted", "sets", 0.1);
+        ctx.require_frac("accepted_sets", "sets_with_a_refusal", "sets", 0.1);
     } else {
         ctx.require_frac("inproc", "expect405", "probes", 0.03);
         ctx.require_frac("inproc", "expect405_version_filter_matters", "probes", 0.003);
